@@ -54,14 +54,17 @@ func (r *Rule) Inflected(s string) string {
 
 func (r *Rule) inflected(s string) string {
 	if res := r.compiledIrregular.FindStringSubmatch(s); len(res) >= 3 {
-		var buf strings.Builder
+		// (?i) also matches runes that only fold to ASCII letters (ſ, K): those are not in the table
+		if replacement, ok := r.irregularMap[strings.ToLower(res[2])]; ok {
+			var buf strings.Builder
 
-		buf.WriteString(res[1])
-		// keep the case of the matched word's first letter, not of the whole input's
-		buf.WriteString(res[2][0:1])
-		buf.WriteString(r.irregularMap[strings.ToLower(res[2])][1:])
+			buf.WriteString(res[1])
+			// keep the case of the matched word's first letter, not of the whole input's
+			buf.WriteString(res[2][0:1])
+			buf.WriteString(replacement[1:])
 
-		return buf.String()
+			return buf.String()
+		}
 	}
 
 	if r.compiledUninflected.MatchString(s) {
